@@ -490,6 +490,19 @@ def c10_judge_output(sent, glr, loc, line):
             if inp[a:b].decode(errors="replace") != val:
                 problems.append(("span", "located value %r has span [%d-%d] but the input has %r there" % (val, a, b, inp[a:b].decode(errors="replace"))))
                 break
+    if sent["unique"] and os.environ.get("VH_C10_CALIBRATE"):
+        bare0 = STRLIT.sub('""', dbg)
+        nn, ne = len(re.findall(r"\bNone\b", bare0)), bare0.count("[]")
+        with open("/tmp/w/c10_calib.jsonl", "a") as f:
+            f.write(json.dumps({"glr": glr, "none": nn, "empty_vec": ne, "absent_opts": sent["absent_opts"], "empty_stars": sent["empty_stars"], "empty_alts": sent["empty_alts"], "empty_alts_vec": sent.get("empty_alts_vec", 0), "dbg": dbg[:300], "input": sent["input"]}) + "\n")
+    if sent["unique"]:
+        # optional parts yield None exactly when absent: every `?` not taken, every `*` that matched nothing and
+        # every explicit EMPTY alternative taken shows as one None (or one empty vector), nothing else does
+        bare1 = STRLIT.sub('""', dbg)
+        nn = len(re.findall(r"\bNone\b", bare1)) + bare1.count("[]")
+        en = sent["absent_opts"] + sent["empty_stars"] + sent["empty_alts"]
+        if nn != en:
+            problems.append(("nones", "AST shows %d None/[] but the (unique) derivation has %d absent optional parts (%d `?` not taken, %d empty `*`, %d EMPTY alternatives)" % (nn, en, sent["absent_opts"], sent["empty_stars"], sent["empty_alts"])))
     if sent["unique"]:
         bare = STRLIT.sub('""', dbg)
         nt, nf = len(re.findall(r"\btrue\b", bare)), len(re.findall(r"\bfalse\b", bare))
@@ -597,9 +610,10 @@ PLANS["C10"] = dict(
          "input slice at its span; when the derivation is unique (reference enumerator) the numbers of true/false equal the present/absent ?= bindings and the GLR first tree replayed through the builder renders identically to the LR value. "
          "non-trivial = distinct (grammar, input) with >= 2 content tokens whose AST passed all checks",
     assumptions=["fence of listed finding qassign-not-implemented: the generator writes `=` wherever the `ast` generator would write `?=`; the ?= presence check only runs on the witness",
-                 "LR modules use prefer_shifts; an LR rejection of a sentence of an ambiguous grammar is counted, not judged",
+                 "LR modules use prefer_shifts; an LR rejection of a sentence of an ambiguous grammar is counted, not judged; cyclic grammars are not compiled for LR (fence of the listed C15 finding lr-reduction-cycle-cyclic-grammar)",
                  "modules that do not compile are C11's business: they are removed and counted (blocked by a listed C11 finding / other)",
-                 "the number of None / [] in the rendering is not judged (the documented types do not make that count exact)",
+                 "fence of the listed C09 finding sep-helper-name in the `ast` generator: one separator setting per symbol",
+                 "for unique derivations the number of None plus [] must equal the number of absent optional parts (rule calibrated on 600 cases of the unchanged tree before it was switched on)",
                  "names come from the pool that avoids Rust prelude / generated identifiers; a production kind is used once per grammar"],
     floor=dict(quick=50, thorough=500), wall_cap=dict(quick=1800, thorough=7200),
 )
